@@ -344,8 +344,9 @@ func runFault(cfg pagedrv.Cfg, path []O, rec *FaultRecipe) (viol []pagedrv.Viola
 		if rec == nil || env.Dead {
 			return
 		}
-		// the failures stop
+		// the failures stop; from here on every commit leaves decodable, consistent metadata on disk
 		env.Disk.SetPlan(nil)
+		env.DiskCheck = true
 		if env.F == nil {
 			if !r.open(env.Opts, -1) {
 				if !env.Dead {
@@ -359,6 +360,9 @@ func runFault(cfg pagedrv.Cfg, path []O, rec *FaultRecipe) (viol []pagedrv.Viola
 			return
 		}
 		r.checkInProcess("after the failures stopped")
+		if !r.postCommit {
+			env.CheckMemVsDisk("after the failures stopped")
+		}
 		switch rec.Variant {
 		case "reopen":
 			if r.reopen(env.Opts, -1) {
@@ -520,7 +524,11 @@ func replayFault(raw json.RawMessage) []string {
 	if err := json.Unmarshal(raw, &d); err != nil || d.Task.Cfg == "" {
 		return xstate.ReplayDoc(raw)
 	}
-	fmt.Printf("cfg %s history: %s\n  plan: %+v\n", d.Task.Cfg, pagedrv.PathString(d.Task.Path), *d.Task.Only)
+	if d.Task.Only != nil {
+		fmt.Printf("cfg %s history: %s\n  plan: %+v\n", d.Task.Cfg, pagedrv.PathString(d.Task.Path), *d.Task.Only)
+	} else {
+		fmt.Printf("cfg %s history: %s\n  all plans\n", d.Task.Cfg, pagedrv.PathString(d.Task.Path))
+	}
 	js, _ := json.Marshal(d.Task)
 	r := handleFault(js).(FaultResult)
 	var out []string
@@ -583,15 +591,28 @@ func runC08(ctx *core.Ctx, pool *par.Pool) {
 		ovDepth = 6
 	}
 	runs = append(runs, bfsRun{pagedrv.CfgA, ovSeed, ovDepth})
-	share := ctx.Budget() / time.Duration(len(runs))
+	// failures while an open lowers the maximum size and returns free pages at the end of the file (second open-time transaction)
+	shrinkSeed := seed{"grown-free-tail", []O{{K: pagedrv.OReopenWith, A: 128}, {K: pagedrv.OBegin}, {K: pagedrv.OAlloc, A: 100}, {K: pagedrv.OWriteAll}, {K: pagedrv.OCommit},
+		{K: pagedrv.OBegin}, {K: pagedrv.OFreeRun, A: 40, B: 60}, {K: pagedrv.OCommit}}}
+	shrinkAlphabet := []O{{K: pagedrv.OReopenWith, A: 64}, {K: pagedrv.OReopenWith, A: 96}, {K: pagedrv.OReopenWith, A: 64, B: 1}, {K: pagedrv.OReopen}, {K: pagedrv.OBegin},
+		{K: pagedrv.OAlloc, A: 1}, {K: pagedrv.OWrite, A: 0, B: pagedrv.WFull}, {K: pagedrv.OFree, A: -1}, {K: pagedrv.OCommit}}
+	shrinkDepth := 3
+	if !ctx.Quick() {
+		shrinkDepth = 5
+	}
+	runs = append(runs, bfsRun{pagedrv.CfgB, shrinkSeed, shrinkDepth})
 	for _, run := range runs {
 		cfg := run.Cfg
 		alphabet := faultAlphabet(ctx.Quick())
 		if run.Seed.Name == ovSeed.Name {
 			alphabet = overflowBodyAlphabet()
 		}
+		if run.Seed.Name == shrinkSeed.Name {
+			alphabet = shrinkAlphabet
+		}
 		sigs := map[string]bool{}
 		var tasks []FaultTask
+		share := ctx.FairShare(len(runs), 1)
 		endRun := ctx.Phase(share)
 		endBFS := ctx.Phase(share * 3 / 10)
 		st := xstate.BFS(ctx, pool, xstate.Spec{Cfg: cfg, Seed: run.Seed.Ops, Alphabet: alphabet, MaxDepth: run.Depth, Flags: []string{"iolog"},
